@@ -152,7 +152,7 @@ func (g *gctx) intFn() kit.IntFn { return kit.IntFnGen().Draw(g.t, "fn") }
 
 func (g *gctx) leaf() *node {
 	t := g.t
-	switch rapid.SampledFrom([]string{"src", "src", "src", "ok", "fail", "apply", "apply-panic", "apply2", "apply2-err", "apply2-panic", "func1", "fromTry", "fromOption"}).Draw(t, "leaf") {
+	switch rapid.SampledFrom([]string{"src", "src", "src", "src", "src", "src", "src", "src", "src", "src", "src", "ok", "fail", "apply", "apply-panic", "apply2", "apply2-err", "apply2-panic", "func1", "fromTry", "fromOption"}).Draw(t, "leaf") {
 	case "src":
 		i := rapid.IntRange(0, g.nSrc-1).Draw(t, "src")
 		return &node{desc: fmt.Sprintf("src%d", i), size: 1, srcs: map[int]bool{i: true},
